@@ -13,6 +13,7 @@ calc_distance_to_bus with plain Python sets, lists and dicts only (no networkx, 
 * notravbuses: such a bus stays a neighbour of its neighbours (it can be reached, test_distance pins this) but has
             no outgoing adjacency (it is not traversed) - "remove the edges pointing away of notravbuses"
 """
+import copy
 import heapq
 import itertools
 
@@ -23,7 +24,38 @@ import pandapower as pp
 KINDS = ["line", "impedance", "dcline", "trafo", "trafo3w", "switch"]
 OPTKEY = {"line": "include_lines", "impedance": "include_impedances", "dcline": "include_dclines",
           "trafo": "include_trafos", "trafo3w": "include_trafo3ws", "switch": "include_switches"}
-BASES = ["R3", "M4", "T3", "W3", "I2"]
+BASES = ["R3", "M4", "T3", "W3", "I2", "W2"]
+_OWN = {}
+
+
+def _mk_W2():
+    """two PARALLEL three-winding transformers on the same hv/mv/lv buses (0 / 1 / 2) + line 1-3; trafo3w 1 has a
+    closed t3 switch at its mv bus.  With k<=2 menu deviations every pair of open t3 switches - same or different
+    transformer, every side combination - is reached: (trafo3w index, bus) pairs that share the index OR the bus."""
+    net = pp.create_empty_network(sn_mva=1.)
+    pp.create_bus(net, 110., name="b0")
+    pp.create_bus(net, 20., name="b1")
+    pp.create_bus(net, 10., name="b2")
+    pp.create_bus(net, 20., name="b3")
+    pp.create_ext_grid(net, 0, vm_pu=1.02, **na.EG)
+    pp.create_transformer3w_from_parameters(net, 0, 1, 2, **na.TR3)
+    pp.create_transformer3w_from_parameters(net, 0, 1, 2, **na.TR3)
+    pp.create_line_from_parameters(net, 1, 3, **na.LINE)
+    pp.create_load(net, 2, 3.0, 1.0)
+    pp.create_load(net, 3, 2.0, 0.5)
+    pp.create_switch(net, 1, 1, "t3", closed=True)
+    return net
+
+
+HOT = dict(na.HOT, W2=(1, 2))
+
+
+def base(name):
+    if name != "W2":
+        return na.base(name)
+    if name not in _OWN:
+        _OWN[name] = _mk_W2()
+    return copy.deepcopy(_OWN[name])
 
 
 # ----------------------------------------------------------------------------------------------
@@ -47,7 +79,7 @@ def apply_dev(net, d):
 
 
 def build(case):
-    net = na.base(case["base"])
+    net = base(case["base"])
     for d in case.get("devs", ()):
         apply_dev(net, d)
     return net
@@ -56,7 +88,7 @@ def build(case):
 def topo_menu(basename):
     """Every switch position / in_service flag of the base net plus structural additions, derived from the
     base net itself (so that all bus-bus / line / trafo / trafo3w switch positions are in the menu)."""
-    net = na.base(basename)
+    net = base(basename)
     m = []
     for s in net.switch.index:
         m.append(["set", "switch", int(s), "closed", not bool(net.switch.at[s, "closed"])])
